@@ -61,6 +61,14 @@ def crcRaw (c : Nat) (d : Bytes) : Nat := d.foldl crcUpdate c
 (process_bytes returns early), which is also what the formula yields. -/
 def crc32 (d : Bytes) : Nat := crcRaw 0xFFFFFFFF d ^^^ 0xFFFFFFFF
 
+/-! ### the table-driven fall-back of `private/crc32.h` (not used in a zlib build) -/
+
+/-- one iteration of `Crc32_ComputeBuf`: `crc32 = (crc32 >> 8) ^ crcTable[(crc32 ^ byteBuf[i]) & 0xFF]` -/
+def tableStep (c : Nat) (b : UInt8) : Nat := (c >>> 8) ^^^ Gen.crcTable.getD ((c ^^^ b.toNat) &&& 0xFF) 0
+
+/-- `Crc32_ComputeBuf(inCrc32, buf, len)` -/
+def tableCrc (inCrc : Nat) (d : Bytes) : Nat := d.foldl tableStep (inCrc ^^^ Gen.crcXorIn) ^^^ Gen.crcXorOut
+
 /-! ## the on-disk record -/
 
 structure Header where
